@@ -261,15 +261,17 @@ func ruleExecScansEveryRow(c *Ctx) {
 		return
 	}
 	c.Fn("(*Query).exec")
-	lp := findRangeLoopOverField(exec, "from")
-	if lp == nil {
+	scan := c.findExecScan(exec)
+	if scan == nil {
 		c.Unknown("exec.scan-complete", "(*Query).exec", c.P.Pos(exec.Pos()), "anchor lost: no loop over query.from")
 		return
 	}
+	lp := scan.lp
+	ei := errIdx(scan.fn)
 	// any block of the loop with a successor outside the loop, other than the header itself, is an early exit;
 	// it must lead to an error return only
 	ok, why := true, ""
-	for _, b := range exec.Blocks {
+	for _, b := range scan.fn.Blocks {
 		if !inNaturalLoop(lp.header, b) {
 			continue
 		}
@@ -278,13 +280,13 @@ func ruleExecScansEveryRow(c *Ctx) {
 				continue
 			}
 			// s is outside the loop: every path from s must be an error return
-			paths, err := WalkFrom(exec, s, b, WalkCfg{MaxVisits: 1, MaxPaths: 3000, NoEffects: true})
+			paths, err := WalkFrom(scan.fn, s, b, WalkCfg{MaxVisits: 1, MaxPaths: 3000, NoEffects: true})
 			if err != nil {
 				ok, why = false, err.Error()
 				continue
 			}
 			for _, p := range paths {
-				if p.Exit == "return" && len(p.Ret) == 2 && p.Ret[1].Nil {
+				if p.Exit == "return" && ei >= 0 && ei < len(p.Ret) && p.Ret[ei].Nil {
 					ok, why = false, "the scan of query.from can be left at "+c.P.Pos(b.Instrs[len(b.Instrs)-1].Pos())+" before all rows were examined, and exec still returns successfully"
 				}
 				if p.Exit == "cut" || p.Exit == "stop" {
